@@ -573,9 +573,7 @@ def gen_array_spec(rng, ndim=None, extents=(0, 1, 2, 3), fills=(0,), formats=("c
     caxes = None
     if fmt == "gcxs" and ndim >= 2:
         k = rng.randint(1, ndim - 1)
-        caxes = rng.sample(range(ndim), k)
-        if rng.random() < 0.7:
-            caxes.sort()
+        caxes = sorted(rng.sample(range(ndim), k))   # the library requires sorted compressed axes
     return {"shape": shape, "coords": [list(p) for p in pos], "data": data, "fill": fill, "format": fmt, "caxes": caxes}
 
 
@@ -586,7 +584,8 @@ def build_array(spec, dtype=None, idx_dtype=None):
     shape = tuple(spec["shape"])
     nd = len(shape)
     dt = np.dtype(dtype or spec.get("dtype", "int64"))
-    coords = np.array(spec["coords"], dtype=np.intp).reshape(-1, nd).T if spec["coords"] else np.zeros((nd, 0), dtype=np.intp)
+    n = len(spec["coords"])
+    coords = np.array(spec["coords"], dtype=np.intp).reshape(n, nd).T if (n and nd) else np.zeros((nd, n), dtype=np.intp)
     if idx_dtype:
         coords = coords.astype(idx_dtype)
     data = np.array(spec["data"], dtype=dt)
